@@ -237,6 +237,10 @@ func (p *printer) item(n *Node) string {
 func (p *printer) expr(n *Node) string {
 	switch n.K {
 	case KInt:
+		if n.I >= 0 && p.r != nil && p.r.Intn(12) == 0 {
+			// decimal literals may be zero-padded
+			return []string{"0", "00", "000"}[p.r.Intn(3)] + strconv.FormatInt(n.I, 10)
+		}
 		return strconv.FormatInt(n.I, 10)
 	case KFloat:
 		s := strconv.FormatFloat(n.F, 'f', -1, 64)
